@@ -59,6 +59,18 @@ def alias_probe(ctx, h):
         b = hvgen.impl_stats(obj, canon)
         ctx.supporting["alias_cases"] = ctx.supporting.get("alias_cases", 0) + 1
         bad, _ = hvgen.cmp_stats(a, b, rtol=1e-12)
+        # other spellings of the registered names (the name is lower-cased before the look-up): each statistic is either refused or the
+        # canonical value -- never a different number
+        for sp in {alias.upper(), alias.title(), canon.upper(), canon.capitalize()} - set(DISTRIBUTION_MAP):
+            v = hvgen.impl_stats(obj, sp)
+            both = [k for k in v if v[k] != "err" and b[k] != "err"]
+            bad2, _ = hvgen.cmp_stats({k: v[k] for k in both}, {k: b[k] for k in both}, rtol=1e-12)
+            ctx.supporting["spelling_cases"] = ctx.supporting.get("spelling_cases", 0) + 1
+            if bad2:
+                ctx.violation("distribution-alias", dict(case=hvhist.history_json(h), alias=sp, canonical=canon, differing=bad2,
+                                                         alias_values={k: v[k] for k in bad2}, canonical_values={k: b[k] for k in bad2}),
+                              seam="distribution argument, spelling with capitals")
+                break
         if bad:
             ctx.violation("distribution-alias", dict(case=hvhist.history_json(h), alias=alias, canonical=canon, differing=bad,
                                                      alias_values={k: a[k] for k in bad}, canonical_values={k: b[k] for k in bad}),
